@@ -1,6 +1,7 @@
 import TsVerif.C15.Lemmas
 import TsVerif.C15.Judge
 import TsVerif.C15.Canon
+import TsVerif.C15.Converse
 /-!
 # C15 — Generation is deterministic and table optimisation never changes results
 
@@ -9,22 +10,27 @@ byte-identical parser source and node-types output.  Turning the optional state-
 optimisation off changes no observable result: the two parsers accept the same strings and produce
 identical trees on every accepted string.
 
-| clause | how it is covered |
-|---|---|
-| byte-identical output across processes | implementation vs implementation: ≥ 4 fresh processes per optimisation level per grammar, bytes of parser.c / node-types.json compared (judge `allEqual`) — sampled, not proved |
-| unoptimised accepts with tree `t` ⇒ optimised accepts with the same `t`, for ALL token strings | `sim_preserves` (premise `simCheck A B f`, decidable) + `findSim_sound`; evaluated per generated pair on the tables the runtime decodes |
-| optimised accepts ⇒ unoptimised accepts; trees equal on explored strings | sampled: both REAL parsers run on every explored string (judge `agree`) |
+## Clause-by-clause map
 
 `A` is the table of the `OptLevel::empty()` parser, `B` the table of the `OptLevel::MergeStates`
 parser, both dumped from the loaded `TSLanguage` by the runtime's own lookup functions.  The driver
-is the shared `TsVerif.C03.run` (single-version LR driver, port of ts_parser__advance/reduce/accept).
+is the shared `TsVerif.C03.run` (single-version LR driver, port of ts_parser__advance/reduce/accept),
+tied to both REAL parsers per explored string (accept/reject and tree).
+Status: **proved** = ∀-theorem; **partial** = proved under decidable hypotheses evaluated per
+generated pair (fractions: thorough tier, default seed, 1498 pairs, 878 of them with merged states);
+**judged** = implementation against implementation on explored inputs.
 
-| the re-interning of action lists before rendering does not depend on the interning history | `canonicalize_perm` (Canon.lean: hand port of `ActionListPool::canonicalize`) |
-| both directions where a state-wise converse map exists | `tables_equivalent` (`findSim B A` succeeds only for pairs where nothing was merged: reported as `rsim`) |
+| phrase of the property text | theorems | status |
+|---|---|---|
+| "generating a parser twice from the same grammar, in separate processes, yields byte-identical parser source and node-types output" | — | judged: ≥ 4 (quick 6) fresh processes per optimisation level per grammar, bytes of parser.c / node-types.json compared (`allEqual`); 1498/1498 |
+| … the re-interning of action lists before rendering does not depend on the interning history | `canonicalize_perm` (Canon.lean: hand port of `ActionListPool::canonicalize`) | proved about the port |
+| "turning the optimisation off changes no observable result": unoptimised accepts with tree `t` ⇒ optimised accepts with the same `t`, ALL token strings | `sim_preserves`, `findSim_sound`, `optimised_preserves_accepted` | partial: `findSim A B` succeeds — 1498/1498 (failing is a violation) |
+| optimised accepts with tree `t` ⇒ unoptimised accepts with the same `t`, pairs where nothing was merged state-wise | `tables_equivalent` | partial: `findSim B A` succeeds — 620/1498 (`rsim`) |
+| optimised accepts with tree `t` ⇒ unoptimised accepts with the same `t`, pairs with merged states | `optimised_accepted_is_accepted_unoptimised`, `merged_pair_equivalent` (through the source grammar: C03 `parser_sound` on `B`, `parser_complete` on `A`, determinism of the driver; strings of non-extra terminals, existential fuel) | partial: `simCheck ∧ tableSafe B ∧ relOK g B ∧ coverOK g A P ∧ completeOK A P ∧ sameTerminals` — 565/1498, of which 194 of the 878 merged pairs (for LR(1)-by-construction pairs failing is a violation); either converse: 814/1498 |
+| "the two parsers accept the same strings and produce identical trees on every accepted string" — the rest | — | judged: both REAL parsers on every explored string (`agree`; 4.56 M strings, 80408 accepted by both, 0 differing) |
 
-OPEN: the converse simulation (B ⇒ A) does not hold state-by-state when states were merged (merged
-states have more look-aheads; the argument is the LALR-vs-LR one about extra reductions before an
-error, not a simulation) and is only sampled; process-level determinism is sampled.
+OPEN: the converse for merged pairs outside the grammar route (precedence-resolved conflicts,
+aliases, hidden terminal rules, > 100 states) is only sampled; process-level determinism is sampled.
 -/
 namespace TsVerif.C15
 open TsVerif.C03
@@ -63,6 +69,36 @@ theorem tables_equivalent (A B : Table) (f f' : SMap) (h : findSim A B = some f)
     (toks : List Nat) (t : PTree) : run A toks = .accepted t ↔ run B toks = .accepted t :=
   ⟨optimised_preserves_accepted A B f h toks t, optimised_preserves_accepted B A f' h' toks t⟩
 
+/-- `optimised_accepted_is_accepted_unoptimised`: the converse direction for pairs in which states WERE
+merged, validated through the source grammar `g` (Converse.lean): `B` accepts ⇒ `g` derives
+(`C03.parser_sound`, premises `tableSafe B`, `relOK g B auxB`) ⇒ `A` accepts (`C03.parser_complete`,
+premises `coverOK g A auxA P start`, `completeOK A P … ann start`) and then with the SAME tree
+(`simCheck A B f` and the driver being a function).  For ALL strings of non-extra terminals; the
+five premises are decidable and evaluated per generated pair (`conv=true` on the `P` line). -/
+theorem optimised_accepted_is_accepted_unoptimised (g : Grammar) (A B : Table) (f : SMap) (auxA auxB : AuxMap)
+    (P : List Prod) (ann : Ann) (start : Nat)
+    (hsim : simCheck A B f = true)
+    (hsafeB : tableSafe B = true) (hrelB : relOK g B auxB = true)
+    (hcovA : coverOK g A auxA P start = true) (hokA : completeOK A P (auxAllow auxA) ann start = true)
+    (hnames : sameTerminals A B = true)
+    (toks : List Nat) (htoks : ∀ a, a ∈ toks → a < A.tokenCount ∧ a ≠ 0 ∧ isExtraSym B a = false)
+    (fuel : Nat) (t : PTree) (hB : runLoop B fuel { stack := [], toks := toks } = .accepted t) :
+    ∃ fuel', runLoop A fuel' { stack := [], toks := toks } = .accepted t :=
+  converse_through_grammar g A B f auxA auxB P ann start hsim hsafeB hrelB hcovA hokA hnames toks htoks fuel t hB
+
+/-- `merged_pair_equivalent`: both directions for a validated pair, merged states or not: the two
+tables accept exactly the same strings of non-extra terminals with exactly the same trees. -/
+theorem merged_pair_equivalent (g : Grammar) (A B : Table) (f : SMap) (auxA auxB : AuxMap)
+    (P : List Prod) (ann : Ann) (start : Nat)
+    (hsim : simCheck A B f = true)
+    (hsafeB : tableSafe B = true) (hrelB : relOK g B auxB = true)
+    (hcovA : coverOK g A auxA P start = true) (hokA : completeOK A P (auxAllow auxA) ann start = true)
+    (hnames : sameTerminals A B = true)
+    (toks : List Nat) (htoks : ∀ a, a ∈ toks → a < A.tokenCount ∧ a ≠ 0 ∧ isExtraSym B a = false) (t : PTree) :
+    (∃ fuel, runLoop A fuel { stack := [], toks := toks } = .accepted t) ↔
+    (∃ fuel, runLoop B fuel { stack := [], toks := toks } = .accepted t) :=
+  merged_tables_equivalent g A B f auxA auxB P ann start hsim hsafeB hrelB hcovA hokA hnames toks htoks t
+
 /-! ## non-vacuity: a table with a duplicated state and its merged version -/
 
 /-- `S → a | b`, with two copies (2 and 4) of the state after the token -/
@@ -84,6 +120,21 @@ example : (findSim tB tB).isSome = true := by decide   -- the converse map exist
 example : (findSim tB tA).isSome = false := by decide
 example : simCheck tA tB [(4, 2), (2, 2), (3, 3), (1, 1)] = true := by decide
 example : (match run tA [2], run tB [2] with | .accepted a, .accepted b => a.leaves == b.leaves | _, _ => false) = true := by decide
+/-- the premises of `merged_pair_equivalent` on this merged pair, with the grammar `s: choice('a', 'b')` -/
+def tSyms : Array SymInfo :=
+  #[⟨false, true, false, 0, "end"⟩, ⟨true, false, false, 1, "a"⟩, ⟨true, false, false, 2, "b"⟩, ⟨true, true, false, 3, "s"⟩]
+def tAn : Table := { tA with syms := tSyms }
+def tBn : Table := { tB with syms := tSyms }
+def tG : Grammar := { name := "t", rules := [("s", .choice (.str "a") (.str "b"))] }
+def tAnn : Ann :=
+  { items := #[[], [⟨3, [1], 0, 0, 0, none⟩, ⟨3, [2], 0, 0, 0, none⟩], [⟨3, [1], 0, 1, 0, none⟩], [], [⟨3, [2], 0, 1, 0, none⟩]],
+    nullable := [], first := [(3, [1, 2])] }
+example : simCheck tAn tBn [(4, 2), (2, 2), (3, 3), (1, 1)] = true := by decide
+example : tableSafe tBn = true := by decide
+example : relOK tG tBn [] = true := by decide
+example : coverOK tG tAn [] [(3, [1], 0), (3, [2], 0)] 3 = true := by decide
+example : completeOK tAn [(3, [1], 0), (3, [2], 0)] (auxAllow []) tAnn 3 = true := by decide
+example : sameTerminals tAn tBn = true := by decide
 /-- a wrong merge (state 4 of `A` reduces 2 children, the merged state 1) is refused -/
 def tA' : Table := { tA with acts := #[[], [(1, [.shift 2 false false]), (2, [.shift 4 false false])],
               [(0, [.reduce 3 1 0 0])], [(0, [.accept])], [(0, [.reduce 3 2 0 0])]] }
